@@ -34,8 +34,8 @@ pub fn run<C: Suite>(ctx: &mut Ctx) {
     let max_n: u16 = match (ctx.quick(), slow) {
         (true, true) => 4,
         (true, false) => 7,
-        (false, true) => 6,
-        (false, false) => 9,
+        (false, true) => 8,
+        (false, false) => 14,
     };
     let entries = ["generate_with_dealer", "split", "dkg_part1", "compute_refreshing_shares", "refresh_dkg_part1", "repair_share_part1", "signing_key_new", "signing_key_sign", "randomized_params", "batch_verify"];
     for e in entries {
